@@ -379,6 +379,7 @@ def main(argv):
             "out, parked, Arc's COW on the parked copy, written back on the normal path; untouched when Clone unwinds. That other handles keep "
             "seeing the old value follows: the write target is solely owned (C03 gate) or fresh. Not decided: visibility of writes as a run-time "
             "observation; schedules (reduced to C02/C03)."
+            ' Round fourteen: c12.union_dispatch as a premise (the sole-owner verdict reads a count that owners held by an ArcUnion must have reached).'
         ),
         rule_text="instances = (function, path-set | order | gate/write-back)",
         trusted_base=["rustc nightly MIR and trait resolution", "std model table", "C03's gate and C02's ordering lemma for the concurrent part"],
